@@ -116,10 +116,6 @@ func (m singleModel) Initialise() (error, TimeSteppingModel, data.ND3Float64, da
 		return errors.New("No input timeseries provided"), nil, nil, nil, warnings
 	}
 
-	if inputs.Len3() == 0 {
-		return errors.New("Input timeseries are empty: no timesteps to run"), nil, nil, nil, warnings
-	}
-
 	return nil, model, inputs, states, warnings
 }
 
@@ -170,7 +166,9 @@ func RunSingleModelJSON(r io.Reader, w io.Writer, splitOutputs bool) {
 
 	outputs := InitialiseOutputs(model, inputs.Len3(), 1)
 
-	model.Run(inputs, states, outputs)
+	if inputs.Len3() > 0 {
+		model.Run(inputs, states, outputs)
+	} // else: no timesteps to run; the series are empty and the states stay as initialised
 	results.Outputs = outputs
 	results.States = states
 }
